@@ -807,11 +807,20 @@ fn scen(args: &[String], out: &mut Out) {
     let mut r = Rng::new(arg_u64(args, "--seed", 1) ^ 0x5ce9);
     let atom = |b: &[u8]| json!({"op": "new_atom", "b": bytes_json(b)});
     // ---- GC pattern: [outer full checkpoint] prelude, transparent checkpoint, kept value, garbage, maybe_restore
-    for kept in 0..16usize {
+    // kept values 16..: "heap-backed small integers" - Bytes-type atoms created after the checkpoint on new bytes
+    // whose content is (or just fails to be) a canonical small integer: concat of two terms, or a slice of a
+    // fresh 1 KB atom
+    let cat_terms: [(&[u8], &[u8]); 8] = [
+        (&[0x12], &[0x34]), (&[], &[0x7f]), (&[0x00], &[0x80]), (&[0x03], &[0xff, 0xff, 0xff]),
+        (&[0x04], &[0x00, 0x00, 0x00]), (&[], &[0x00]), (&[0x00], &[0x01]), (&[], &[]),
+    ];
+    let fresh_prefix: [u8; 14] = [0x05, 0x7f, 0x00, 0x80, 0x03, 0xff, 0xff, 0xff, 0x04, 0x00, 0x00, 0x00, 0x00, 0x01];
+    let fresh_slices: [(u32, u32); 8] = [(0, 1), (1, 2), (2, 4), (4, 8), (8, 12), (2, 3), (12, 14), (5, 5)];
+    for kept in 0..32usize {
         for garbage in 0..4usize {
             for outer in 0..2usize {
-                if outer == 1 && garbage >= 1 && garbage <= 2 {
-                    continue; // the long garbage variants once
+                if (outer == 1 || kept >= 16) && garbage >= 1 && garbage <= 2 {
+                    continue; // the long garbage variants once, for the first 16 kinds
                 }
                 let hl: u64 = if (kept + garbage) % 3 == 0 { 6000 } else { u32::MAX as u64 };
                 let mut s = Sess::new(hl);
@@ -850,7 +859,20 @@ fn scen(args: &[String], out: &mut Out) {
                         ops.push(json!({"op": "new_substr", "n": 3, "s": 1, "e": ol - 1}));
                         ops.push(json!({"op": "new_substr", "n": 6, "s": 1, "e": 9}));
                     }
-                    _ => ops.push(json!({"op": "new_substr", "n": 4, "s": 0, "e": 1})), // inline result of an inline atom
+                    15 => ops.push(json!({"op": "new_substr", "n": 4, "s": 0, "e": 1})), // inline result of an inline atom
+                    16..=23 => {
+                        let (ta, tb) = cat_terms[kept - 16];
+                        ops.push(atom(ta)); // handle 6
+                        ops.push(atom(tb)); // handle 7
+                        ops.push(json!({"op": "new_concat", "size": ta.len() + tb.len(), "ns": [6, 7]}));
+                    }
+                    _ => {
+                        let mut fresh = fresh_prefix.to_vec();
+                        fresh.extend(std::iter::repeat(0xaa).take(1040));
+                        let (a, b) = fresh_slices[kept - 24];
+                        ops.push(atom(&fresh)); // handle 6
+                        ops.push(json!({"op": "new_substr", "n": 6, "s": a, "e": b}));
+                    }
                 }
                 if !run_script(out, &mut s, &ops) {
                     continue;
